@@ -16,45 +16,37 @@ theorem readAt_take_short (f : Bytes) {k p n : Nat} (h : k < p + n) (hn : 0 < n)
     (readAt (f.take k) p n).length ≠ n :=
   readAt_short (by simp only [List.length_take]; omega) hn
 
-/-- `_read_chunk_header` on eight available bytes `id ++ s4` with a syntactically valid id. -/
+/-- `_read_chunk_header` on eight available bytes `id ++ s4` with a syntactically valid id that is not the unset
+`data` size of a plain RIFF file. -/
 theorem readChunkHeader_hdr {f pre id s4 rest : Bytes} (ds : Option Ds64) (hf : f = pre ++ (id ++ (s4 ++ rest)))
-    (hid : id.length = 4) (hs : s4.length = 4) (hv : validId id = true) :
+    (hid : id.length = 4) (hs : s4.length = 4) (hv : validId id = true)
+    (hnp : isPlaceholder ds id (fromLE s4) = false) :
     readChunkHeader f ds pre.length = .hdr id (hdrSize ds id (fromLE s4)) := by
   have hd : readAt f pre.length 8 = id ++ s4 :=
     readAt_mid (a := pre) (b := id ++ s4) (r := rest) (by simp [hf]) rfl (by simp [hid, hs])
   have h4 : (id ++ s4).take 4 = id := by rw [← hid]; simp
   have h5 : (id ++ s4).drop 4 = s4 := by rw [← hid]; simp
-  simp only [readChunkHeader, hd, h4, h5, hv]
+  simp only [readChunkHeader, hd, h4, h5, hv, hnp]
   simp [hid, hs]
 
-/-- one iteration of `_read_chunks` on a chunk that ends after the end of the file -/
-theorem readChunks_chunkEnd {f : Bytes} {ds : Option Ds64} {fuel pos : Nat} {t : Table} {w : List Warn}
-    {id : Bytes} {sz : Nat} (hh : readChunkHeader f ds pos = .hdr id sz)
-    (h1 : pos + 8 + (sz + sz % 2) > f.length)
-    (h2 : ¬ (sz % 2 = 1 ∧ id = idData ∧ pos + 8 + (sz + sz % 2) = f.length + 1)) :
-    readChunks f ds (fuel + 1) pos t w = .error .chunkEnd := by
-  rw [readChunks, hh]
-  simp only [h1, h2, ↓reduceIte]
+/-- `_read_chunk_header` on the eight bytes `data` + `0xFFFFFFFF` of a plain RIFF file (no ds64 chunk):
+"data chunk size has not been set". -/
+theorem readChunkHeader_placeholder {f pre rest : Bytes} (hf : f = pre ++ (idData ++ (ffff ++ rest))) :
+    readChunkHeader f none pre.length = .placeholder := by
+  have hd : readAt f pre.length 8 = idData ++ ffff :=
+    readAt_mid (a := pre) (b := idData ++ ffff) (r := rest) (by simp [hf]) rfl rfl
+  have h4 : (idData ++ ffff).take 4 = idData := rfl
+  have h5 : (idData ++ ffff).drop 4 = ffff := rfl
+  have hv : validId idData = true := by decide
+  have hp : isPlaceholder none idData (fromLE ffff) = true := by decide
+  simp only [readChunkHeader, hd, h4, h5, hv, hp]
+  simp [idData, ffff]
 
-/-- one iteration of `_read_chunks` on a chunk that ends inside the file: recorded, the walk carries on behind it -/
-theorem readChunks_continue {f : Bytes} {ds : Option Ds64} {fuel pos : Nat} {t : Table} {w : List Warn}
-    {id : Bytes} {sz : Nat} (hh : readChunkHeader f ds pos = .hdr id sz)
-    (h1 : ¬ pos + 8 + (sz + sz % 2) > f.length) :
-    readChunks f ds (fuel + 1) pos t w = readChunks f ds fuel (pos + 8 + (sz + sz % 2)) ((id, sz, pos) :: t) w := by
+/-- one iteration of `_read_chunks` on the unset `data` size: the constructor raises -/
+theorem readChunks_placeholder {f : Bytes} {ds : Option Ds64} {fuel pos : Nat} {t : Table} {w : List Warn}
+    (hh : readChunkHeader f ds pos = .placeholder) :
+    readChunks f ds (fuel + 1) pos t w = .error .dataPlaceholder := by
   rw [readChunks, hh]
-  simp only [h1, ↓reduceIte]
-
-/-- one iteration of `_read_chunks` on an odd-sized `data` chunk that lacks only its pad byte: recorded with the
-"missing padding byte" warning -/
-theorem readChunks_dataPad {f : Bytes} {ds : Option Ds64} {fuel pos : Nat} {t : Table} {w : List Warn}
-    {id : Bytes} {sz : Nat} (hh : readChunkHeader f ds pos = .hdr id sz)
-    (h1 : pos + 8 + (sz + sz % 2) > f.length)
-    (h2 : sz % 2 = 1 ∧ id = idData ∧ pos + 8 + (sz + sz % 2) = f.length + 1) :
-    readChunks f ds (fuel + 1) pos t w =
-      readChunks f ds fuel (pos + 8 + (sz + sz % 2)) ((id, sz, pos) :: t) (w ++ [.dataPad]) := by
-  rw [readChunks, hh]
-  dsimp only
-  rw [if_pos h1, if_pos h2]
 
 /-! ### prefixes of a chunk sequence -/
 
@@ -115,6 +107,7 @@ theorem walk_prefix (ds : Option Ds64) (A : List Chunk) (c : Chunk) (hA : ∀ x 
       congr 2
     have hh := readChunkHeader_hdr (f := f) (pre := pre ++ encAll A) (id := c.id) (s4 := le 4 c.szField)
       (rest := (c.body ++ c.padB).take (j - 8)) ds (by rw [hf, htake]; simp) hc.idLen (le_length 4 _) hc.idValid
+      (by rw [fromLE_le4 _ hc.szLt]; exact hc.noPlaceholder)
     have hsz : hdrSize ds c.id (fromLE (le 4 c.szField)) = c.body.length := by
       rw [fromLE_le4 _ hc.szLt]; exact hc.size
     rw [hsz, List.length_append] at hh
